@@ -13,3 +13,7 @@ pub trait ExAsRef<T: PointeeSized>: PointeeSized {
         ensures r == spec_as_ref::<Self, T>(self);
 }
 pub assume_specification [ Path::to_path_buf ] (p: &Path) -> (r: PathBuf);
+
+// ASSUMED (A-std): Rc<T>::as_ref is the pointee.
+pub broadcast axiom fn axiom_rc_as_ref<T>(rc: &std::rc::Rc<T>)
+    ensures #[trigger] spec_as_ref::<std::rc::Rc<T>, T>(rc) == &**rc;
